@@ -184,17 +184,21 @@ class Env:
         self.pfx = bytes(self.ov.get_prefix())
         self.ov.send_data = lambda target, cid, dest, src, data: self.log.append(("tunnel", cid, target, dest, src, bytes(data)))
         from ipv8.messaging.anonymization.payload import DataPayload
-        real_opfc = type(self.ov).on_packet_from_circuit
-
-        def opfc(src, data, cid):
-            # a DATA cell nested in the payload is re-dispatched by the REAL on_packet_from_circuit (it leads back into
-            # on_data and from there possibly to exit_data); other cell types are outside C06 and only recorded
-            if data[22:23] == bytes([DataPayload.msg_id]):
-                self.nested_redispatch += 1
-                return real_opfc(self.ov, src, data, cid)
-            self.log.append(("loc", cid, 0))
-        self.nested_redispatch = 0
-        self.ov.on_packet_from_circuit = opfc
+        # The REAL on_packet_from_circuit runs (re-dispatch of own-overlay payloads by data[22] through decode_map_private).
+        # on_data stays the real handler of DataPayload; every other registered cell handler is replaced by a recorder, so
+        # that we see WHICH handler would run with WHICH source address without executing circuit management.
+        self.circuit_cell_ids = set(self.ov.decode_map_private)      # what TunnelCommunity.__init__ registered itself
+        for mid in list(self.ov.decode_map_private):
+            if mid != DataPayload.msg_id:
+                self.ov.decode_map_private[mid] = (lambda src, data, cid, m=mid: self.log.append(("handler", m, src, cid)))
+        # one message type that IS meant to come back through an exit (like PeersResponse/CreatedE2E of the hidden-services
+        # overlay): registered by the harness, allowed from exits where the tree has such a notion
+        self.EXIT_MSG = 200
+        self.ov.decode_map_private[self.EXIT_MSG] = (lambda src, data, cid: self.log.append(("handler", self.EXIT_MSG, src, cid)))
+        self.exit_ids = []
+        if hasattr(self.ov, "exit_msg_ids"):
+            self.ov.exit_msg_ids.add(self.EXIT_MSG)
+            self.exit_ids = sorted(self.ov.exit_msg_ids)
         self.ov.on_raw_data = lambda circuit, origin, data: self.log.append(("loc", circuit.circuit_id, 2))
         self._peers = {}
         from ipv8.messaging.anonymization.endpoint import TunnelEndpoint
@@ -301,6 +305,8 @@ def canon(entry) -> str:
         return f"tunnel:{cid}:{hx(str(target[0]).encode())}:{target[1]}:{hx(data)}:{show_addr(src)}{extra}"
     if entry[0] == "loc":
         return f"loc:{entry[1]}:{entry[2]}"
+    if entry[0] == "handler":
+        return f"loc:{entry[3]}:0"
     if entry[0] == "resolve":
         return f"resolve:{entry[1]}:{hx(entry[2].encode())}"
     return repr(entry)
@@ -662,13 +668,18 @@ def draw_event(rng, env: Env, h, pend_gates, pend_dns, open_fams):
         # one of the exit sockets; the outer org_address (chosen by the sender) is what the re-dispatch would use as source
         c = h["circs"][0]
         inner_payload = payload_pool(rng, env.pfx)[1]
-        inner = data_packet(env.pfx, s["cid"], ("4", "93.184.216.34", 6881), inner_payload,
-                            ("4", rng.choice(["0.0.0.0", "10.1.1.1"]), 0))
+        mid = rng.choice([1, 1, 1, 2, 3, 4, 5, 6, 7, 19, 20, env.EXIT_MSG, env.EXIT_MSG, 99])
+        if mid == 1:
+            inner = data_packet(env.pfx, s["cid"], ("4", "93.184.216.34", 6881), inner_payload,
+                                ("4", rng.choice(["0.0.0.0", "10.1.1.1"]), 0))
+        else:       # any other cell type of the tunnel overlay (create, created, extend, extended, ping, pong, test-*, ...)
+            inner = env.pfx + bytes([mid]) + struct.pack(">I", s["cid"]) + rng.randbytes(rng.choice([2, 40]))
         oip = s["ip"] if rng.random() < 0.7 else rng.choice(FOREIGN_IPS)
         origin = ("6" if ":" in oip else "4", oip, rng.choice([s["port"], 1234]))
         return {"ev": "data", "src": [c["ip"], c["port"] if rng.random() < 0.85 else 999], "cid": c["cid"],
                 "dest": list(rng.choice([("4", "0.0.0.0", 0), ("4", "8.8.4.4", 53)])), "origin": list(origin),
-                "data": inner.hex(), "pkind": "nested-data"}
+                "data": inner.hex(), "pkind": "nested-data" if mid == 1 else "nested-exit-message" if mid == env.EXIT_MSG
+                else "nested-unknown-id" if mid == 99 else "nested-circuit-cell"}
     cid = s["cid"] if rng.random() < 0.9 else rng.choice([3, 555, s["cid"] + 1])
     r = rng.random()
     if r < 0.55:
@@ -727,11 +738,11 @@ async def run_history(ctx: Ctx, env: Env, h, fixed_events=None):
         env.new_circuit(c["cid"], c["ip"], c["port"], c["e2e"])
     hopip = {s["cid"]: s["ip"] for s in h["socks"]}
     env.ov.endpoint = env.tunnel_ep if h.get("tunnel_ep") else env.plain_ep
-    lines = ["reset %s [%s] [%s] [%s] %d" % (
+    lines = ["reset %s [%s] [%s] [%s] %d [%s]" % (
         hx(env.pfx), ",".join(map(str, h["flags"])),
         ",".join(f"{s['cid']}:{hx(s['ip'].encode())}:{s['port']}" for s in h["socks"]),
         ",".join(f"{c['cid']}:{hx(c['ip'].encode())}:{c['port']}:{1 if c['e2e'] else 0}" for c in h["circs"]),
-        1 if h.get("tunnel_ep") else 0)]
+        1 if h.get("tunnel_ep") else 0, ",".join(map(str, env.exit_ids)))]
     impl = ["ok"]
     dns_of = {cid: [] for cid in sockobj}        # cid -> list of dns records in flight (model's `pending`)
     requested = {cid: set() for cid in sockobj}  # cid -> (data, host, port) that some cell / resolution asked to be sent
@@ -870,6 +881,13 @@ async def run_history(ctx: Ctx, env: Env, h, fixed_events=None):
                                     f"event {i}: outside datagram {data[:32].hex()} (BT-shaped={spec_bt(data)}, IPv8-shaped={spec_ipv8(data)}) "
                                     f"was sent back into the tunnel while peer_flags={cur_flags}",
                                     {"part": "B", "history": {**h, "events": events}})
+        for ent in new:
+            if ent[0] == "handler" and ent[1] in env.circuit_cell_ids:
+                ctx.oracle_fail("TunnelCommunity.on_data:circuit-cell-handler-run-from-data-payload",
+                                f"event {i}: the payload of a DATA cell from {e.get('src')} was dispatched to the cell handler of message id "
+                                f"{ent[1]} with source address {tuple(ent[2])}, an address taken from the payload's org_address: no "
+                                f"datagram came from there (a pong / created / ... would be sent to it)",
+                                {"part": "B", "history": {**h, "events": events}})
         if e["ev"] == "data":
             pl = bytes.fromhex(e["data"])
             if any(x[0] == "resolve" for x in new) and not spec_allowed(exit_bt, exit_ipv8, env.pfx, pl):
@@ -879,7 +897,7 @@ async def run_history(ctx: Ctx, env: Env, h, fixed_events=None):
                                 {"part": "B", "history": {**h, "events": events}})
             es0 = sockobj.get(cid)
             if es0 is not None and not enabled_before[cid] and not es0.enabled and \
-                    ([x for x in new if x[0] != "loc"] or len(es0.queue) != qlen_before[cid]):
+                    ([x for x in new if x[0] not in ("loc", "handler")] or len(es0.queue) != qlen_before[cid]):
                 ctx.oracle_fail("TunnelCommunity.exit_data:closed-socket-accepted-data",
                                 f"event {i}: cell from {e['src']} did not open socket {cid} (hop {hopip.get(cid)}) but was queued / "
                                 f"caused {[x[0] for x in new]}",
@@ -904,8 +922,10 @@ async def run_history(ctx: Ctx, env: Env, h, fixed_events=None):
             own = any(c["cid"] == cid and [c["ip"], c["port"]] == e["src"] for c in h["circs"])
             p_ok = spec_allowed(exit_bt, exit_ipv8, env.pfx, bytes.fromhex(e["data"]))
             if own:
-                br = "own-circuit:" + ("delivered" if "loc" in kinds else "nested-data-cell" if e.get("pkind") == "nested-data"
-                                        else "dropped(no TunnelEndpoint)")
+                br = "own-circuit:" + ("delivered-to-exit-message-handler" if "handler" in kinds else
+                                        "delivered" if "loc" in kinds else
+                                        "dropped:" + e["pkind"] if e.get("pkind", "").startswith("nested-") else
+                                        "dropped(no TunnelEndpoint)")
             elif dnull:
                 br = "drop:null-destination"
             elif cid not in sockobj:
@@ -1012,6 +1032,22 @@ def run_opening_grid(ctx: Ctx, env: Env, use_model: bool):
     for hop in HOP_IPS[:3]:
         for oip in (hop, FOREIGN_IPS[0]):
             for e2e in (False, True):
+                for mid in (6, 2, 3, 4, 19, env.EXIT_MSG):
+                    if e2e and mid != 6:
+                        continue
+                    h = {"flags": [env.F_RELAY, env.F_BT], "socks": [{"cid": 77, "ip": hop, "port": 5000}],
+                         "circs": [{"cid": 555, "ip": "192.0.2.55", "port": 4000, "e2e": e2e}], "tunnel_ep": False,
+                         "style": "grid", "n": 1, "events": []}
+                    inner = env.pfx + bytes([mid]) + struct.pack(">I", 77) + b"\x00\x4d" + b"\x11" * 38
+                    evs = [{"ev": "data", "src": ["192.0.2.55", 4000], "cid": 555, "dest": ["4", "0.0.0.0", 0],
+                            "origin": ["6" if ":" in oip else "4", oip, 5000], "data": inner.hex(),
+                            "pkind": "nested-exit-message" if mid == env.EXIT_MSG else "nested-circuit-cell"}]
+                    lines, impl, stats = env.loop.run_until_complete(run_history(ctx, env, h, fixed_events=evs))
+                    ctx.count(f"G:nested-message-id-{mid}-on-own-circuit" + (":e2e" if e2e else ""))
+                    ctx.case(("G", "nested", mid, hop, oip, e2e), nontrivial=True, n=len(lines) - 1)
+                    all_lines += lines
+                    all_impl += impl
+                    owners += [h] * len(lines)
                 h = {"flags": [env.F_RELAY, env.F_BT], "socks": [{"cid": 77, "ip": hop, "port": 5000}],
                      "circs": [{"cid": 555, "ip": "192.0.2.55", "port": 4000, "e2e": e2e}], "tunnel_ep": False, "style": "grid",
                      "n": 4, "events": []}
